@@ -34,6 +34,17 @@ ops.register_param_variant("para_C", "hertz_para", E=2000.0,
 ops.register_param_variant("para_D", "hertz_para", E=2000.0,
                            contact_point=1.05e-7,
                            baseline={"vary": False})
+# differ from para_A only in a limit (inactive at the optimum), or only in
+# the brute-force step
+ops.register_param_variant("para_E", "hertz_para",
+                           E={"value": 2000.0, "max": 2e4},
+                           contact_point=1e-7)
+ops.register_param_variant("para_F", "hertz_para",
+                           E={"value": 2000.0, "min": 10.0},
+                           contact_point=1e-7)
+ops.register_param_variant("para_G", "hertz_para",
+                           E={"value": 2000.0, "brute_step": 7.0},
+                           contact_point=1e-7)
 
 RES_COLS = ["fit", "fit residuals", "fit range"]
 PLATEAU_KEYS = ("optimal_fit_E_array", "optimal_fit_delta_array")
@@ -114,9 +125,10 @@ class CurveDriver(hist.Driver):
                     viol("refit-on-unchanged",
                          "state changed by a fit with unchanged settings: "
                          + _diff_fields(pre, idnt))
-        if pre["has_hash"] and post_has and \
+        if pre["has_hash"] and post_has and not obs.get("minimize") and \
                 idnt.fit_properties["hash"] == _unnorm_hash(pre):
-            # results kept => every setting's value must be unchanged
+            # results kept (same hash, no new optimisation) => every
+            # setting's value must be unchanged
             if post_settings != pre["settings"]:
                 ch = [k for k in set(post_settings) | set(pre["settings"])
                       if post_settings.get(k) != pre["settings"].get(k)]
@@ -466,6 +478,9 @@ class InitialParams(CurveDriver):
         F(params_initial={"__params__": "para_B"}),
         F(params_initial={"__params__": "para_C"}),
         F(params_initial={"__params__": "para_D"}),
+        F(params_initial={"__params__": "para_E"}),
+        F(params_initial={"__params__": "para_F"}),
+        F(params_initial={"__params__": "para_G"}),
         F(params_initial=None),
         F(model_key="hertz_cone"),
         F(model_key="hertz_para"),
